@@ -95,7 +95,7 @@ def main(run):
                     o = run_one(adapter, op, script, payload, root, '%s%d' % (op, i))
                     nf = len(script)
                     auth_only = [k for _, _, k in script if k != 'auth']
-                    events.append(dict(o, adapter=adapter, op=op, script=[list(x) for x in script], nfaults=len(auth_only) if adapter == 'b2' else nf,
+                    events.append(dict(o, adapter=adapter, op=op, script=[list(x) for x in script], nfaults=nf,
                                        persistent=False, budget=budget, predicted='~'))
                     run.case((adapter, op, tuple(script)))
                 # faults that never go away, one per kind
